@@ -51,7 +51,7 @@ func TestVsReplayC14(t *testing.T) {
 		i := 0
 		writer = func() { i++; kmc.ChangeRemark(acct, fmt.Sprintf("r%d", i)) }
 	default:
-		fmt.Println("VSREPLAY-NOT-REPRODUCED: no native scenario for", m.Obligation)
+		fmt.Println("VSREPLAY-NO-SCENARIO: no native scenario for", m.Obligation)
 		return
 	}
 	var wg sync.WaitGroup
